@@ -116,9 +116,9 @@ Proof.
   - eapply exit_common_linv; eauto.
 Qed.
 
-Lemma plthook_entry_linv : forall s kd k loc arg, linv s -> linv (plthook_entry s kd k loc arg).
+Lemma plthook_push_linv : forall s kd k loc arg, linv s -> linv (plthook_push s kd k loc arg).
 Proof.
-  intros s kd k loc arg [A [B C]]. unfold plthook_entry.
+  intros s kd k loc arg [A [B C]]. unfold plthook_push.
   set (e := new_ent s true k loc (kind_of kd arg)).
   assert (He : e_depth e = N.of_nat (length (rs s))) by (unfold e, new_ent; simpl; exact A).
   pose proof (rtd_shape e (rs s)) as R.
@@ -128,6 +128,12 @@ Proof.
     constructor; [|exact C]. unfold jb_ok; simpl. repeat split; auto; try (rewrite A, R1; lia). rewrite R1, R2; exact He.
   - destruct kd; unfold linv; simpl; repeat split; auto; try (rewrite A; lia).
     constructor; [|exact C]. unfold jb_ok; simpl. repeat split; auto. rewrite A; lia.
+Qed.
+
+Lemma plthook_entry_linv : forall s kd k loc arg, linv s -> linv (plthook_entry s kd k loc arg).
+Proof.
+  intros s kd k loc arg H. unfold plthook_entry. apply plthook_push_linv. destruct (inexc s); [|exact H].
+  apply rehook_exception_linv with (fa := loc) in H. destruct H as [A [B C]]. repeat split; auto.
 Qed.
 
 Lemma follow_linv : forall fuel s v n s' v' n', linv s -> follow fuel s v n = Some (s', v', n') -> linv s'.
